@@ -48,6 +48,12 @@ TEXT = {
  "C11": dict(tech="rapid grammar-based request generation over real TCP against a full server in a child process; liveness + follow-up-correctness oracle incl. restart/log replay",
    text="Generated request sequences (method x route x body grammar x query parameters) hit the API and management ports of a complete server.Server running in a child; every request must get a well-formed HTTP response, the process must stay alive (also 300 ms later: FSM panics are asynchronous), the next valid insertion must get the next dense version with a verifying proof, and the server must restart on its directories (log replay) and serve again. Exploration.",
    note="Requests are sent with net/http (well-formed HTTP framing); an empty log's CurrentVersion 2^64-1 is not asserted against.", ref="§5 C11"),
+ "C06": dict(tech="rapid fault-sequence generation on a real 3-node Raft cluster; replica-equality and cross-replica proof oracle at quiescent points",
+   text="Generated sequences of adds, follower stop/restart and leadership transfers run on three real RaftNodes (one child process, loopback transport); at each quiescent point all live replicas must have the same applied state and byte-identical tables and each must serve proofs that verify against the snapshots the leaders returned. Exploration of fault sequences; schedules inside raft are whatever the runtime produces.",
+   note="No partitions / message loss (no transport hook); convergence is a 60 s bound, two orders above normal.", ref="§5 C06"),
+ "C09": dict(tech="rapid fault-sequence generation with forced log compaction on a real 3-node cluster; convergence oracle after state transfer and after later insertions",
+   text="Generated histories take a follower down, insert, force snapshots with TrailingLogs=0 on the rest (so the missed entries are gone), bring back the follower and/or a brand-new node, and require C06's oracle to hold after the state transfer and again after more insertions (optionally after leadership transfer / restart of the restored node). Exploration.",
+   note="Compaction is verified to have happened (class 'compacted'); only such cases count as non-trivial. The gap-refusal clause is exercised through the same path (FetchSnapshot validate function); direct FetchSnapshot fuzzing is in thorough when built.", ref="§5 C09"),
 }
 
 NA = {}
